@@ -421,7 +421,7 @@ PROPS = {
                       "was created non-exclusively. Known: two processes that both find the lock of a dead holder (source TODO).",
         "required_theorems": ["mutex", "refuse_while_held", "never_remove_live", "stale_recovered", "free_acquired", "close_releases",
                               "mutex_excl_interleaved", "race_create_pinned", "race_stale", "command_releases", "pinned_leaves_lock",
-                              "gen_commands_release", "gen_commands_release_all", "gen_lock_exclusive", "lock_roundtrip", "lock_too_long", "gen_lock_content", "empty_lock_not_a_number"],
+                              "gen_commands_release", "gen_commands_release_all", "gen_lock_exclusive", "lock_roundtrip", "lock_too_long", "gen_lock_content", "empty_lock_not_a_number", "gen_webui_releases"],
         "slices": ["C19"],
         "needs_gitbug": True,
         "timeout": {"quick": 2400, "thorough": 7200},
